@@ -592,3 +592,7 @@ def run(ctx):
     ctx.guarded(r, XS.check_mask_logic, "grad_slice")
     r = ctx.rule("R6h", "aarch64 gradient abs / min / max return the selected operand whole, selected by the interpreter's comparison of the value lanes", 3)
     ctx.guarded(r, XS.check_grad_piecewise)
+    from .. import x86pw as PW86
+
+    r = ctx.rule("R6i", "x86_64 gradient abs / min / max / compare: on every order type of the value lanes exactly one path is selected and returns the selected operand's value and partial derivatives whole (ties of min / max and the zero of abs: value lane only)", 4)
+    ctx.guarded(r, PW86.check_piecewise, "grad_slice")
